@@ -4,7 +4,7 @@ set -e
 cd /verif
 b=$1
 git merge --no-commit --no-ff "$b" >/dev/null 2>&1 || true
-for f in MANIFEST.json lean/Driver.lean lean/RigModel.lean; do
+for f in MANIFEST.json lean/Driver.lean lean/RigModel.lean $(git diff --name-only --diff-filter=U | grep "^evidence/"); do
   git checkout --ours -- $f 2>/dev/null || true
 done
 python3 tools/mk_driver.py
